@@ -25,8 +25,18 @@ def m2m_subclass_tag(*specs):
     return ''
 
 
+def tag_table_name_findings(fp, *specs):
+    """The ingredient tag goes on the findings that are about a table name
+    (a statement that names a table which is not there, a table too many or
+    too few); everything else keeps its own fingerprint."""
+    if fp.startswith('C01|sql-error|OperationalError|') or \
+            '|table-extra:' in fp or '|table-missing:' in fp:
+        return fp + m2m_subclass_tag(*specs)
+    return fp
+
+
 def judge(node, step, tr):
-    return [(fp + m2m_subclass_tag(node.spec, tr.spec_after), d)
+    return [(tag_table_name_findings(fp, node.spec, tr.spec_after), d)
             for fp, d in _judge(node, step, tr)]
 
 
@@ -361,7 +371,7 @@ def hinted_one(project, target, stats, violations):
                     fps.append((fp, {'where': where,
                                      'hint': str(hint)[:300]}))
         for fp, detail in fps:
-            fp += m2m_subclass_tag(project, target)
+            fp = tag_table_name_findings(fp, project, target)
             ent = violations.get(fp)
             size = len(S.canon(replay))
             if ent is None:
